@@ -622,7 +622,7 @@ func c15(c *core.Ctx, r *core.Report) {
 			ia, ok := an.Strip(arg).(*ssa.IndexAddr)
 			okOrder := ok && isCounter(ia.Index)
 			if okOrder {
-				_, okOrder = upperGuard(call.Block(), ia.Index, ia.X, func(a, b ssa.Value) bool { return a == b })
+				_, okOrder = forwardBound(call.Block(), ia.Index, ia.X, func(a, b ssa.Value) bool { return a == b })
 			}
 			r.Check(okOrder, key, an.Pos(c, call), "synchronous call per stage, in slice order", "stages are not run in the order of the plan (argument "+an.D().Of(arg)+")")
 		}
